@@ -307,3 +307,72 @@ def send_lease(E):
     E.prove('subscribe:publisher_subscribed_once_with_own_subscriber',
             len(calls) == 1 and isinstance(calls[0][2][0], SObj) and calls[0][2][0].cls.name == 'LeaseSubscriber'
             and calls[0][2][0].attrs['_socket'] is sock)
+
+
+# --------------------------------------------------------------------------- history, through the public operations only (bounded)
+
+def _lease_history(k, qsize):
+    """Representation-independent: the endpoint is set up by the real _reset_internals and driven only through
+    send_request / handle_lease, so the clauses do not depend on which container holds the retained requests.
+    BOUNDED: k requests before the first LEASE, retention queue size qsize (0 = unbounded); loops are unrolled."""
+    def run(E):
+        E.import_module('datetime')
+        E.import_module('asyncio')
+        now0 = E.fresh_int('now')
+        E.path.ghost['now'] = I(now0)
+        sock = new_obj(E, 'rsocket/rsocket_client.py::RSocketClient', _honor_lease=True, _request_queue_size=qsize,
+                       _fragment_size_bytes=None)
+        E.call(E.getattr(sock, '_reset_internals'), [])
+        wire = []
+        E.stubs[BASE + '.send_frame'] = lambda E_, f, a, kw: wire.append(a[1])
+        same = lambda xs, ys: len(xs) == len(ys) and all(x is y for x, y in zip(xs, ys))
+        reqs, accepted = [], []
+        for i in range(k):
+            fr = E.call(E.lookup(FR + REQUEST_CLASSES[i % 4]), [])
+            E.setattr(fr, 'stream_id', 2 * i + 1)
+            reqs.append(fr)
+            try:
+                E.call(E.getattr(sock, 'send_request'), [fr])
+                accepted.append(fr)
+            except PyExc as e:
+                E.prove('history:a_request_is_refused_only_with_QueueFull', e.value.cls.issubclass(EXC['QueueFull']))
+        E.cover('requests-made')
+        E.prove('history:nothing_sent_before_the_first_LEASE', wire == [])
+        E.prove('history:requests_retained_up_to_the_configured_queue_size_the_rest_refused',
+                same(accepted, reqs[:qsize] if qsize > 0 else reqs))
+        n = E.fresh_int('granted', 0, 0x7FFFFFFF)
+        ttl = E.fresh_int('ttl_ms', 1, 0x7FFFFFFF)
+        lf = E.call(E.lookup(FR + 'LeaseFrame'), [])
+        E.setattr(lf, 'number_of_requests', n)
+        E.setattr(lf, 'time_to_live', ttl)
+        E.await_value(E.call(E.getattr(sock, 'handle_lease'), [lf]))
+        released = len(accepted)
+        for m in range(len(accepted)):
+            if E.decide(mk_bool(I(n) == m), 'granted=%d' % m):
+                released = m
+                break
+        E.cover('lease-arrived')
+        E.prove('history:retained_requests_released_in_FIFO_order_up_to_the_grant_each_once', same(wire, accepted[:released]))
+        # one more request under the same lease
+        late = E.call(E.lookup(FR + 'RequestResponseFrame'), [])
+        E.setattr(late, 'stream_id', 99)
+        left = released == len(accepted) and E.decide(mk_bool(I(n) > len(accepted)), 'grant-left')
+        if E.path.choice(2, 'lease-expired-meanwhile') == 1:
+            E.path.ghost['now'] = I(now0) + I(ttl) * 1000       # exactly at the end of the time-to-live
+            left = False
+        try:
+            E.call(E.getattr(sock, 'send_request'), [late])
+        except PyExc as e:
+            E.prove('history:late_request_refused_only_with_QueueFull', e.value.cls.issubclass(EXC['QueueFull']) and not left)
+            return
+        E.prove('history:a_later_request_is_sent_iff_the_lease_is_valid_and_has_units_left',
+                same(wire, accepted[:released] + ([late] if left else [])))
+    return run
+
+
+for _k in (1, 2, 4):
+    for _qs in (0, 1, 3):
+        harness('c14.history.bounded[requests=%d,queue_size=%d]' % (_k, _qs), ['C14'], kind='bounded', replay='c14_history',
+                functions=[BASE + '.send_request', BASE + '._queue_request_frame', BASE + '.handle_lease', BASE + '._reset_internals'],
+                assumptions=['BOUNDED stand-in: up to 4 requests before the first LEASE, retention queue sizes 0 (unbounded), 1, 3; '
+                             'symbolic grant, time-to-live and clock; driven through the public operations only'])(_lease_history(_k, _qs))
